@@ -99,13 +99,15 @@ class Mask(AbstractNDArray, ABC):
         -------
         A dictionary containing the pixel scale of the mask, which can be output to a .fits file.
         """
-        try:
-            return {"PIXSCALE": self.pixel_scale}
-        except exc.MaskException:
-            return {
-                "PIXSCALEY": self.pixel_scales[0],
-                "PIXSCALEX": self.pixel_scales[1],
-            }
+        if all(
+            pixel_scale == self.pixel_scales[0] for pixel_scale in self.pixel_scales
+        ):
+            return {"PIXSCALE": self.pixel_scales[0]}
+
+        return {
+            "PIXSCALEY": self.pixel_scales[0],
+            "PIXSCALEX": self.pixel_scales[1],
+        }
 
     @property
     def dimensions(self) -> int:
